@@ -404,6 +404,31 @@ Hint Resolve open_new_blocks_sil clear_llb_up_sil finalize_up_to_sil add_line_si
 Lemma nonblank_of b : is_space_or_tab b = false -> is_line_end_char b = false -> nonblank b = true.
 Proof. unfold nonblank. intros -> ->. reflexivity. Qed.
 
+(* the two tails of the default arm: a line for a block that accepts lines; a new Paragraph *)
+Lemma acc_tail (X : res bytes) st c rc rs :
+  (do line1 <- X;
+   do count <- sub "mod.rs:add_text_to_container:self.first_nonspace - self.offset" (fns st) (offset st);
+   if Nat.leb (fns st) (List.length line1) then
+     do st1 <- adv st line1 count false;
+     do st2 <- add_line st1 c line1;
+     Ok (c, st2)
+   else Ok (c, st)) = Ok (rc, rs) -> SI st -> SI rs.
+Proof. intros H P. silgo H. Qed.
+
+Lemma para_tail st c rc rs :
+  (do a <- add_child o st c Paragraph (S (fns st));
+   let '(p, st1) := a in
+   do count <- sub "mod.rs:add_text_to_container:self.first_nonspace - self.offset" (fns st1) (offset st1);
+   do st2 <- adv st1 line count false;
+   do st3 <- add_line st2 p line;
+   Ok (p, st3)) = Ok (rc, rs) ->
+  (claimed o Paragraph = true -> pos_ok ls Paragraph L (S (fns st))) -> SI st -> SI rs.
+Proof.
+  intros H Hp P. mon H; pairs.
+  match goal with A : add_child _ _ _ Paragraph _ = Ok (_, ?s) |- _ => assert (SI s) by (eapply add_child_sil; eassumption) end.
+  eauto with sil.
+Qed.
+
 Lemma add_text_to_container_sil st c lm st' :
   add_text_to_container o st c lm line = Ok st' -> SI st -> SI st'.
 Proof.
@@ -424,27 +449,26 @@ Proof.
   assert (P2 : SI s2) by eauto with sil.
   match type of H with bind ?e _ = _ => destruct e as [s3| |] eqn:E3; cbn [bind] in H; try discriminate H end.
   assert (K3 : BlocksTotal4Frame.KC (ps_cur s0) (ps_curline_len s0) s3) by (eapply BlocksTotal4Frame.clear_llb_up_KC; eassumption).
-  assert (P3 : SI s3) by eauto with sil.
+  assert (P3 : SI s3) by (eapply clear_llb_up_sil; eassumption).
   match type of H with bind ?e _ = _ => destruct e as [lz| |] eqn:E4; cbn [bind] in H; try discriminate H end.
   destruct lz; [eauto with sil|].
   match type of H with bind ?e _ = _ => destruct e as [s4| |] eqn:E5; cbn [bind] in H; try discriminate H end.
   assert (K4 : BlocksTotal4Frame.KC (ps_cur s0) (ps_curline_len s0) s4) by (eapply BlocksTotal4Frame.finalize_up_to_KC; eassumption).
-  assert (P4 : SI s4) by eauto with sil.
+  assert (P4 : SI s4) by (eapply finalize_up_to_sil; eassumption).
   destruct (get s4 c) as [c4| |] eqn:G4; cbn [bind] in H; try discriminate H.
   match type of H with bind ?e _ = _ => destruct e as [[rc rs]| |] eqn:E6; cbn [bind fst snd] in H; try discriminate H end.
   injection H as <-. apply SIL_st_current.
   assert (B4 : blank s4 = blank s0 /\ fns s4 = fns s0) by (destruct K4 as [K4 _]; unfold blank, fns; rewrite K4; split; reflexivity).
   destruct B4 as [B4 F4].
+  (* the start of a Paragraph created here *)
+  assert (Hp : blank s4 = false -> claimed o Paragraph = true -> pos_ok ls Paragraph L (S (fns s4))).
+  { intros Bl _. rewrite F4. apply pos_here. cbn. destruct C0 as [Cg Cb]. rewrite <- B4, Bl in Cb.
+    destruct (nth_error line (fns s0)) as [b1|] eqn:Nb; [|reflexivity].
+    cbn. apply nonblank_of; [apply Cg; exact Nb | symmetry; exact Cb]. }
   destruct (bval c4) eqn:Bv;
     try (destruct (blank s4) eqn:Bl; [injection E6 as _ <-; exact P4|];
          match type of E6 with (if ?b then _ else _) = _ => destruct b end;
-         [ silgo E6
-         | mon E6; pairs;
-           match goal with A : add_child _ _ _ Paragraph _ = Ok (_, ?s) |- _ => assert (SI s) end; [|eauto with sil];
-           newblk; rewrite F4; apply pos_here; cbn;
-           destruct C0 as [Cg Cb]; rewrite <- B4 in Cb;
-           destruct (nth_error line (fns s0)) as [b1|] eqn:Nb; [|reflexivity];
-           cbn; apply nonblank_of; [apply Cg; exact Nb | symmetry; exact Cb] ]).
+         [ first [eapply (acc_tail (Ok line)); [exact E6 | exact P4] | eapply acc_tail; [exact E6 | exact P4]] | eapply para_tail; [exact E6 | exact (Hp eq_refl) | exact P4] ]).
   - silgo E6.
   - silgo E6.
 Qed.
